@@ -62,6 +62,7 @@ type createOutput struct {
 	UUID      string `json:"uuid"`
 	EpicID    string `json:"epic_id"`
 	State     string `json:"state"`
+	ClaimedBy string `json:"claimed_by,omitempty"`
 	Title     string `json:"title"`
 	Body      string `json:"body"`
 	CreatedAt string `json:"created_at"`
